@@ -42,9 +42,8 @@ def sites_of(cr, n):
 
 
 def parse_res_text(text, n):
-    """Tokenise the .res text the library wrote. Numbers are read exactly from their decimal spelling; the code each
-    SYMM text denotes is *proposed* here and certified by TLC (text = Symop!ToText(Dec(code)))."""
-    from chmpy.crystal.symmetry_operation import SymmetryOperation
+    """Tokenise the .res text the library wrote. Numbers are read exactly from their decimal spelling; each SYMM text is
+    shipped as bytes and read by the specification's own reader (SymopText!ParseTextB)."""
     x = {"exc": "", "latt": 0, "symm": [], "cell": [0] * 6, "celloff": False, "sfac": [], "atoms": [], "atomsoff": False}
     try:
         for line in text.split("\n"):
@@ -63,7 +62,7 @@ def parse_res_text(text, n):
                 x["latt"] = int(toks[1])
             elif key == "SYMM":
                 t = s[4:].strip()
-                x["symm"].append({"text": t, "code": int(SymmetryOperation.from_string_code(t).integer_code)})
+                x["symm"].append({"text": t, "bytes": [ord(ch) if ord(ch) < 256 else 63 for ch in t]})
             elif key == "SFAC":
                 x["sfac"] = toks[1:]
             elif key == "END":
@@ -214,7 +213,7 @@ def run(ctx):
     ctx.explanation = "settings enumerated completely for all three formats; cells, sites, routes and provenance sampled"
     ctx.assumptions = ["cell parameters compared at 1e-6 (2e-6 for .res, which rounds to 6 decimals); coordinates projected to the grid "
                        "with residual <= 1e-8; the .res dialect written by chmpy has no occupancy column, so occupancy is demanded for CIF only",
-                       "the operation denoted by each SYMM text is proposed by the harness and certified by TLC via Symop!ToText"]
+                       "each SYMM text is read from its bytes by the specification's own reader (SymopText.tla)"]
 
 
 def replay(ctx, rec):
